@@ -18,6 +18,15 @@ fn main() {
         std::process::exit(2);
     }
     let prop = args[1].clone();
+    if prop == "pdftext" {
+        // debugging aid: harness pdftext <ledger.cgt> — the text runs of the PDF for that ledger
+        let text = std::fs::read_to_string(&args[2]).expect("read ledger");
+        let txs = cgt_core::parser::parse_file(&text).expect("parse");
+        let cfg = run_impl::config_from(&run_impl::wide_exemptions());
+        let rep = cgt_core::calculator::calculate(&txs, None, None, &cfg).expect("calculate");
+        for r in cgt_formatter_pdf::verif_text_runs(&rep).expect("typst") { println!("{r:?}"); }
+        return;
+    }
     let mut tier = Tier::Quick;
     let mut seed: u64 = 1;
     let mut no_model = false;
